@@ -20,6 +20,11 @@ loaded from a regular grid (`Data.Load`): the node sequences are computed by the
 
 `ry <T> <c>`: `int(T / c)` as evaluated in IEEE double (`rangeYearsF`), and `T // c`.
 
+`flt <c> <obs>` (round 5): `phase_mean()` and `anomaly()` of the float64 observable `obs` (exact
+rationals of the doubles) as executed in IEEE binary64 — every `+`, `/`, `-` rounded to
+nearest-even, the sum over axis 0 row after row (`flPhaseMeanLoop`, `flAnomalyOf`); the answer
+holds the exact rationals of the resulting doubles.
+
 Answer: the outputs of the operations joined by `|`.
 -/
 open Pyunicorn Pyunicorn.Proto Pyunicorn.Window
@@ -135,6 +140,11 @@ def answer (toks : List String) : String :=
   | ["ry", T, c] =>
     if c.toNat! = 0 then "raise:ZeroDivisionError"
     else s!"{rangeYearsF T.toNat! c.toNat!} {T.toNat! / c.toNat!}"
+  | ["flt", c, obs] =>
+    let M := ratMat obs
+    let N := match M with | [] => 0 | r :: _ => r.length
+    showPM N (flPhaseMeanLoop c.toNat! N M) ++ "|" ++
+      (let A := flAnomalyOf c.toNat! N M; showMatS A.length N A)
   | _ => "bad-request"
 
 def main : IO Unit := runDriver answer
